@@ -88,7 +88,11 @@ func (e Expression) MarshalYAML() (interface{}, error) {
 		case FloatExpression:
 			return float64(e), nil
 		case StringExpression:
-			return string(e), nil
+			// Strings that would be read back as a point, a feature ID or
+			// a list of values are written in the explicit form below.
+			if _, ok := ExpressionFromString(string(e)).AnyExpression.(StringExpression); ok {
+				return string(e), nil
+			}
 		case Expressions:
 			return e.String(), nil
 		}
